@@ -384,7 +384,7 @@ def jobs(tier, seed):
     else:
         fm = [(T, A, lat, ident) for (T, A) in ((3, 2), (4, 2), (5, 3)) for lat in ('cubic5', 'tric', 'hex558', 'mono567b110', 'cubic5_rotz')
               for ident in (False, True)]
-        sc = [(3, 2, lat, k, s) for lat in pool.ALL_LATTICES for k, s in (('2', '3/2'), ('1/2', '2'))] + \
+        sc = [(3, 2, lat, k, s) for lat in pool.ALL_LATTICES + ['rand_a', 'rand_b'] for k, s in (('2', '3/2'), ('1/2', '2'))] + \
              [(3, 2, lat, '3/2', '5/4') for lat in ('cubic5', 'ortho457', 'unit')]
         am = [(T, 1) for T in range(2, 8)] + [(3, 2), (4, 2)]
         sd = [(3, 1, 'tric'), (3, 2, 'cubic5')]
